@@ -24,7 +24,7 @@ def queries(rng, par, n):
 
 def key_of(par, step, clause):
     a = step['a']
-    return 'FreeEnergy:%s:ref=%s:ph=%s:%s' % (step['op'], par['ref'], a['ph'], clause)
+    return 'FreeEnergy:%s:ref=%s%s:ph=%s:%s' % (step['op'], par['ref'], '' if par.get('lock', 'none') == 'none' else ',locked', a['ph'], clause)
 
 
 def run(ctx):
